@@ -57,12 +57,12 @@ VOCAB = {
     "env": ["-S", "-Sls", "-S ls", "--split-string=ls -la", "--split-string", "--split-string=", "-i", "-u", "--unset", "--unset=X", "-C", "--chdir", "/tmp", "-iS", "-v", "  ", "-vu", "-vuX", "-iu", "-vvu", "-iC", "-iC/tmp", "-vS", "-vSls -la", "-uS", "-uCC", "-0", "-i0", "-Su", "-x", "-xu", "-ixuX", "--unset", "X", "-CS", "-"],
     "xargs": ["-n", "-n1", "-I", "-I{}", "-0", "-r", "-t", "--max-args=1", "-P", "-d", "-E", "-e", "-l", "-L", "-a", "-p", "-o", "--interactive", "--open-tty", "--interactive=x", "-ap", "-s", "--eof", "--replace", "-i", "-rn", "-rn1", "-rt", "-rp", "-to", "-tp", "-rts", "4096", "-rE", "EOF", "-rEx", "-tI{}", "-Ipo", "-np", "-pn", "-r0", "-0n1", "-xrn", "--", "-x"],
     "find": [".", "-name", "*.py", "-exec", "-execdir", "-ok", "-okdir", "-delete", "-print", "-o", "-type", "f"],
-    "fd": ["-x", "--exec", "-X", "--exec-batch", "-e", "py", "pattern", "-H"],
+    "fd": ["-x", "--exec", "-X", "--exec-batch", "-e", "py", "pattern", "-H", ";", "-Hx", "-xrm", "--exec=rm", "--exec=", "--exec-batch=ls", "-Ix", "-HX", "--execx", "-E", "x", "\\;", "--exec=ls -la"],
     "arch": ["-32", "-64", "-c", "-h", "-arch", "--arch", "-d", "-e", "-arm64", "-x86_64", "arm64", "VAR=1", "-foo"],
     "caffeinate": ["-d", "-i", "-m", "-s", "-u", "-t", "-w", "-disu", "-dx", "10", "-"],
     "uvrun": ["run", "--python", "-p", "3.12", "--with", "pkg", "--project", ".", "-m", "--script", "--no-project", "--", "--env-file", ".env", "--with=x", "python", "-q"],
     "tar": ["-tf", "a.tar", "-xf", "-czf", "tf", "xvf", "cf", "--list", "--extract", "--delete", "--to-command", "--to-command=cat", "--to-command=", "--use-compress-program=gzip", "--use-compress-program", "-I", "zstd", "-F", "--checkpoint-action=exec=x",
-            "--rsh-command=ssh", "--info-script", "-C", "/tmp", "-v", "--get", "--append", "-r", "-u", "-tvf", "-O", "--to-command=rm x", "ls", "--create"],
+            "--rsh-command=ssh", "--info-script", "--use-compress-prog=rm x", "--use", "--rsh=x", "--checkpoint", "--checkpoint=10", "--checkpoint-a=exec=x", "--info-s", "--new", "--newer", "--new-volume=x", "--u", "--", "--=", "--to-comm=cat", "-C", "/tmp", "-v", "--get", "--append", "-r", "-u", "-tvf", "-O", "--to-command=rm x", "ls", "--create"],
     "script": ["-t", "-T", "-a", "-d", "-e", "-F", "-k", "-p", "-q", "-r", "-ap", "--foo", "out.txt", "/dev/null", "--p", "-c", "-qc", "--command", "-qt", "-t5", "-qt5", "-tq", "-qTa", "-E", "-qx", "-aq", "rm x"],
 }
 
@@ -302,6 +302,10 @@ def forms(r, c):
         ("kubectl --as decoy exec", "kubectl --as get exec -it pod -- " + cs, c),
         ("tar -c --to-command decoy", "tar -cf /tmp/x.tar --to-command=" + sq("ls") + " /etc", ["tar", "-cf", "/tmp/x.tar", "/etc"]), ("tar -r --to-command decoy", "tar -rf x.tar --to-command ls f", ["tar", "-rf", "x.tar", "f"]),
         ("tar --delete --to-command decoy", "tar --delete -f x.tar --to-command=ls f", ["tar", "--delete", "-f", "x.tar", "f"]),
+        ("fd 2 clauses", "fd -x ls \\; -x " + cs, c), ("fd 2 clauses quoted ;", "fd pat -x ls ';' -X " + cs, c), ("fd --exec=", "fd --exec=" + q(c[:1]) + " " + q(c[1:]), c), ("fd -Hx", "fd -Hx " + cs, c),
+        ("fd -x attached", "fd -x" + q(c[:1]) + " " + q(c[1:]), c), ("fd --exec-batch=", "fd pat --exec-batch=" + q(c[:1]) + " " + q(c[1:]), c),
+        ("tar abbreviated --use-compress-prog", "tar -xf a.tar --to-command=cat --use-compress-prog=" + sq(cs), ["tar", "-xf", "a.tar", "--use-compress-program=" + cs]), ("tar abbreviated --rsh", "tar -tf h:a.tar --rsh=" + sq(cs), ["tar", "-tf", "h:a.tar", "--rsh-command=" + cs]),
+        ("timeout -vk N", "timeout -vk 3 5s " + cs, c), ("timeout -vs SIG", "timeout -vs KILL 5 " + cs, c),
         ("fzf 2 actions paren+colon", "fzf --bind " + sq("enter:execute(ls),ctrl-x:execute:" + cs), c), ("fzf 2 actions chained", "fzf --bind " + sq("enter:execute(ls)+execute-silent(" + cs + ")"), c),
         ("fzf 2 actions colon last", "fzf --bind " + sq("ctrl-a:become(ls),enter:become:" + cs), c), ("fzf 2 binds", "fzf --bind " + sq("a:execute(ls)") + " --bind " + sq("b:execute(" + cs + ")"), c),
     ]
